@@ -1,13 +1,13 @@
 SPECIFICATION FairSpec
 CONSTANTS
   Keys = {1, 2}
-  MaxChanges = 2
-  MaxFails = 1
+  MaxChanges = 3
+  MaxFails = 2
   MaxOther = 1
   RoundSize = 1
   MinB = 1
   MaxB = 2
-  Variant = "fixed"
+  Variant = "driftOrig"
 INVARIANTS Inv_C15_DoneMeansTarget Inv_C16_Backoff Inv_C16_Progress Inv_C16_LowWatermark
 PROPERTIES Prop_C15_StatusOnly Live_C14
 CHECK_DEADLOCK FALSE
